@@ -157,6 +157,69 @@ pub fn run(job: &Value) {
         flush();
         subjects.push((idx, s));
     }
+    // (g) concurrent construction: 8 threads build neighbouring cases alternately at the same moment; every value
+    // built must print and sample exactly like the single-threaded reference built from equal parameters
+    {
+        let mut built = 0u64;
+        let mut cviol = 0u64;
+        let idxs: Vec<usize> = subjects.iter().map(|x| x.0).collect();
+        for pair in idxs.chunks(2) {
+            let cs: Vec<&Case> = pair.iter().map(|&i| &cases[i]).collect();
+            let refs: Vec<(String, Vec<u64>)> = cs
+                .iter()
+                .map(|c| {
+                    let s = subject(c).expect("rebuild");
+                    let mut r = srng(7);
+                    let hs = match guarded(|| (0..16).map(|_| s.call_hash(&mut r)).collect::<Vec<u64>>()) {
+                        Caught::Ok(v) => v,
+                        _ => vec![],
+                    };
+                    (s.debug(), hs)
+                })
+                .collect();
+            tick();
+            let barrier = std::sync::Barrier::new(8);
+            let results: Vec<Vec<(usize, String, Vec<u64>)>> = std::thread::scope(|sc| {
+                let hs: Vec<_> = (0..8usize)
+                    .map(|t| {
+                        let cs = &cs;
+                        let barrier = &barrier;
+                        sc.spawn(move || {
+                            let mut out = vec![];
+                            barrier.wait();
+                            for round in 0..6usize {
+                                let which = (t + round) % cs.len();
+                                let r = std::panic::catch_unwind(std::panic::AssertUnwindSafe(|| {
+                                    let s = subject(cs[which]).ok()?;
+                                    let mut r = srng(7);
+                                    let hs: Vec<u64> = (0..16).map(|_| s.call_hash(&mut r)).collect();
+                                    Some((s.debug(), hs))
+                                }));
+                                if let Ok(Some((d, hs))) = r {
+                                    out.push((which, d, hs));
+                                }
+                            }
+                            out
+                        })
+                    })
+                    .collect();
+                hs.into_iter().map(|h| h.join().unwrap_or_default()).collect()
+            });
+            for thread_out in results {
+                for (which, d, hs) in thread_out {
+                    built += 1;
+                    if !refs[which].1.is_empty() && (d != refs[which].0 || hs != refs[which].1) {
+                        cviol += 1;
+                        if cviol <= 3 {
+                            emit(&json!({"ev": "viol", "kind": "concurrent_construction_differs", "case": cs[which].to_json(),
+                                "detail": {"reference_debug": refs[which].0.chars().take(300).collect::<String>(), "built_debug": d.chars().take(300).collect::<String>(), "samples_equal": hs == refs[which].1}}));
+                        }
+                    }
+                }
+            }
+        }
+        emit(&json!({"ev": "concurrent", "values_built_concurrently": built, "viol": cviol}));
+    }
     // (d) interleaved histories: groups of objects share one recording RNG; every call is then
     // replayed alone from its recorded words and must give the same result and consume exactly them
     let mut replayed = 0u64;
